@@ -879,14 +879,14 @@ _extend("C06",
 # tsns (C06): TypeScript namespaces and enums
 _extend("C06",
     lean_modules=["EsbuildModel.Props.C06TsNs"],
-    theorems=_thms("C06TsNs", "uninstantiated_emit_nothing uninstantiated_emit_nothing_module uninstantiated_file_emits_nothing dotted_counterexample "
+    theorems=_thms("C06TsNs", "uninstantiated_emit_nothing uninstantiated_emit_nothing_module uninstantiated_file_emits_nothing dotted_form_is_dropped "
                    "declared_once_partial second_block_reuses_binding minified_joins_preserve_semantics closure_argument_spellings_agree"),
     kernels=[("tsns", 2000, 40000), ("tsnsrun", 600, 12000)],
-    open=["TsNs.reference_resolution_matches_ts (every bare identifier is compiled to the binding / ns.member / closure argument / global that TypeScript's resolveName designates) and namespace_object_equal (runJs (compile P) = Spec.run P: outcome, heap with key order, bindings, trace): stated in the header of Props/C06TsNs.lean with the hypotheses found so far, NOT proved; tested by kernel tsnsrun (model and specification against Node) on programs outside the five recorded differences",
+    open=["TsNs.reference_resolution_matches_ts (every bare identifier is compiled to the binding / ns.member / closure argument / global that TypeScript's resolveName designates) and namespace_object_equal (runJs (compile P) = Spec.run P: outcome, heap with key order, bindings, trace): stated in the header of Props/C06TsNs.lean with the hypotheses found so far, NOT proved; tested by kernel tsnsrun (model and specification against Node) on programs outside the four recorded differences",
           "TsNs.declared_once for whole programs (only the closure generator's step is proved)",
-          "TsNs: FALSE of the code, recorded as known finding c06-namespace-enum-hazards: nested `namespace N` then `enum N` hits the TDZ of the `let`; a sibling block's export named like the namespace resolves to the closure argument; a module-level enum is bound only after its closure returns; `namespace A.B { export type T = number }` is not dropped (and then clashes with `const A`); an enum initialiser referring to an enum in an EARLIER sibling namespace is not a constant"],
+          "TsNs: FALSE of the code, recorded as known finding c06-namespace-enum-hazards: nested `namespace N` then `enum N` hits the TDZ of the `let`; a sibling block's export named like the namespace resolves to the closure argument; a module-level enum is bound only after its closure returns; an enum initialiser referring to an enum in an EARLIER sibling namespace is not a constant"],
     scope="internal/js_parser/ts_parser.go parseTypeScriptNamespaceStmt, parseTypeScriptEnumStmt, getOrCreateExportedNamespaceMembers, generateClosureForTypeScriptNamespaceOrEnum, generateClosureForTypeScriptEnum; js_parser.go declareSymbol/canMergeSymbols (kinds var/let/const/function/namespace/enum), findSymbol, handleIdentifier (reads), the namespace-member case of maybeRewritePropertyAccess, visitStmts' enum pre-pass, visitAndAppendStmt cases SLocal/SFunction/SEnum/SNamespace, mangleStmts joins SExpr+SExpr / SExpr+SReturn / SLocal+SLocal; js_ast FoldBinaryOperator(+), FoldStringAddition, KnownPrimitiveType, ExprCanBeRemovedIfUnused on the model's forms — against Spec/TsNamespaces.lean (instantiation, merged symbols, resolveName, constant enum members, run-time semantics)",
-    assumptions=["tsns: numbers are integers below 2^53 in magnitude; every block body runs at most once (no loops; functions without parameters or locals); property names are never inherited ones; tsnsrun compares the specification only on programs outside the five reported differences; tsc is not installed: the TypeScript side cites checker / binder / transformer rules"])
+    assumptions=["tsns: numbers are integers below 2^53 in magnitude; every block body runs at most once (no loops; functions without parameters or locals); property names are never inherited ones; tsnsrun compares the specification only on programs outside the four reported differences; tsc is not installed: the TypeScript side cites checker / binder / transformer rules"])
 
 # ctxlock (C20): the lock level of a build context
 _extend("C20",
